@@ -719,6 +719,8 @@ class BaseART(BaseEstimator, ClusterMixin):
         self.is_fitted_ = True
 
         self.W = []
+        self.weight_sample_counter_ = []
+        self.sample_counter_ = 0
         self.labels_ = -np.ones((X.shape[0],), dtype=int)
 
         writer = PillowWriter(fps=fps)
